@@ -165,7 +165,40 @@ macro_rules! bodies {
                 format!("{n} {ordered}")
             }
 
+            pub fn independent_pairs() -> String {
+                // two producer/consumer pairs on separate channels: their operations commute
+                let mut hs = vec![];
+                let mut rxs = vec![];
+                for p in 0..2u8 {
+                    let (tx, rx) = ch::bounded::<u8>(1);
+                    rxs.push(rx);
+                    hs.push(th::spawn(move || {
+                        for i in 0..2u8 {
+                            tx.send(p * 10 + i).unwrap();
+                        }
+                    }));
+                }
+                let cs: Vec<_> = rxs
+                    .into_iter()
+                    .map(|rx| {
+                        th::spawn(move || {
+                            let mut v = vec![];
+                            while let Ok(x) = rx.recv() {
+                                v.push(x);
+                            }
+                            v
+                        })
+                    })
+                    .collect();
+                for h in hs {
+                    h.join().unwrap();
+                }
+                let got: Vec<Vec<u8>> = cs.into_iter().map(|c| c.join().unwrap()).collect();
+                format!("{:?}", got)
+            }
+
             pub const ALL: &[(&str, fn() -> String)] = &[
+                ("independent_pairs", independent_pairs),
                 ("two_producers_fifo", two_producers_fifo),
                 ("drain_after_disconnect", drain_after_disconnect),
                 ("send_to_dropped_receiver", send_to_dropped_receiver),
@@ -222,9 +255,21 @@ pub fn run() -> usize {
             max_execs: 200_000,
             shards: 1,
             nontrivial: true,
+            unbounded: false,
         };
         let rep = explore(&sc, 0, 1, None);
         let model_outcomes = outcomes.lock().unwrap().clone();
+        // the same body without bound, with sleep sets: the reduction must not lose an outcome
+        outcomes.lock().unwrap().clear();
+        let mut sc2 = sc.clone();
+        sc2.unbounded = true;
+        sc2.name = format!("conformance-ss/{name}");
+        let rep2 = explore(&sc2, 0, 1, None);
+        let ss_outcomes = outcomes.lock().unwrap().clone();
+        if ss_outcomes != model_outcomes || !rep2.machinery_errors.is_empty() {
+            problems += 1;
+            eprintln!("  sleep-set reduction changed the outcomes of {name}: {:?} vs {:?} ({:?})", ss_outcomes, model_outcomes, rep2.machinery_errors);
+        }
         // (b) the real library, free running
         let mut real_outcomes = BTreeSet::new();
         for _ in 0..200 {
@@ -233,9 +278,11 @@ pub fn run() -> usize {
         let missing: Vec<&String> = real_outcomes.iter().filter(|o| !model_outcomes.contains(*o)).collect();
         let ok = missing.is_empty() && rep.machinery_errors.is_empty() && !model_outcomes.iter().any(|o| o.starts_with('<'));
         println!(
-            "conformance {name}: model {} outcomes in {} executions, real {} outcomes in 200 runs{}",
+            "conformance {name}: model {} outcomes in {} executions ({} with sleep sets, {} sleep-blocked), real {} outcomes in 200 runs{}",
             model_outcomes.len(),
             rep.executions,
+            rep2.executions,
+            rep2.sleep_blocked,
             real_outcomes.len(),
             if ok { "" } else { "  <-- MISMATCH" }
         );
